@@ -96,10 +96,11 @@ CHECKS.update({
     "C13": dict(category="translation_validation", technique="Lean theorems (point enclosure => exact value; integer root-exactness test; sinpi/cospi table) + verified evaluator as oracle on sampled exact cases",
                 text="Exactness of exp(0), log(1), sqrt/cbrt/root of perfect powers, sinpi/cospi at half-integers, powm1 = 0 iff x^y = 1, finiteness of tan/cot/sec/csc near k*pi/2 and the inf/nan limit table are decided with the verified evaluator and exact integer tests whose soundness is proved in Lean.",
                 note=TB + "Sampled exact cases; sqrt exactness of the core is additionally covered by C02's correspondence."),
-    "C14": dict(category="proof", technique="Lean 4 containment theorems for interval add/sub/neg/pos/mul (all sign cases) on the proved directed-rounding core + bit-exact correspondence of libmpi with the Lean model + exact sample-point decisions",
-                text="Theorems (finite endpoints of any length, every precision): x in s, y in t => x+y, x-y, -x, x, x*y lie in the result interval, which is again well-formed; multiplication covers the degenerate, the six sign cases and the four-product general case. "
-                     "mpi_div/sqrt/pow_int/abs/square/conversions and infinite endpoints are modelled bit-exactly and containment is decided on sample points per case.",
-                note=TB + "Partial: infinite endpoints, division, powers, sqrt, string conversion are decided per case, not proved; transcendental interval functions are not covered."),
+    "C14": dict(category="proof", technique="Lean 4 containment theorems for interval add/sub/neg/pos/mul/abs/square (all sign cases) and sqrt (over the reals) on the proved directed-rounding core + bit-exact correspondence of libmpi with the Lean model + exact and verified-enclosure decisions on sample points",
+                text="Theorems (finite endpoints of any length, every precision): x in s, y in t => x+y, x-y, -x, x, x*y, |x|, x^2 lie in the result interval, which is again well-formed (multiplication: the degenerate, the six sign cases and the four-product general case; abs and square: "
+                     "the three sign cases each); sqrt x lies between the endpoints of mpi_sqrt for nonnegative intervals (endpoints are THE floor/ceiling roundings of the real roots). mpi_div/pow_int/conversions and infinite endpoints are modelled bit-exactly and decided on sample points; "
+                     "exp/log/sin/cos/tan/cot/sec/csc/atan/atan2/real ** are decided against Lean-verified enclosures on structured and steered samples.",
+                note=TB + "Partial: infinite endpoints, division, powers, string conversion and the transcendental functions are decided per case, not proved; gamma family only at closed-form points."),
     "C15": dict(category="proof", technique="Lean 4 containment theorems for complex rectangle add/sub/neg/pos/mul (from the proved real interval operations) + bit-exact model of the other mpci_* + exact and verified-enclosure decisions on sample points",
                 text="Theorems (Props/C15.lean): for rectangles with finite canonical endpoints of any bit length and every precision, mpci_add/sub/neg/pos/mul return well-formed rectangles containing z op w for every z, w in the operands. "
                      "mpci_div/abs/square/pow_int are modelled following the code and compared bit for bit, with exact sample-point containment decisions; mpc exp/log/cos/sin/abs/arg are decided on sample points from verified real enclosures combined in exact rational arithmetic.",
